@@ -9,7 +9,7 @@ TB = ("Coq 8.16.1 kernel + vm_compute; no axioms (Print Assumptions: closed); ex
 
 CLAIMED = {
     'C01': dict(cat='proof', technique='Coq proofs on the 6502 flag semantics and on a Gallina model of the generator\'s comparison lowering (branch sequences reach their label iff the C relation holds; negation / operand-swap tables), that model compared with the real generator on every cell each run + co-execution of generated programs on the extracted 6502 semantics against the extracted C semantics, failures minimised and attributed by feature',
-                text='Proved for all bytes and machine states: the flags CMP leaves; the unsigned branch sequences are exact; the signed ones are exact when the 8-bit subtraction does not overflow and refuted otherwise (known finding); the CMP-less comparison with 0 is exact for signed operands and for exactly the cells == != <= on unsigned ones (the other three cells are refuted: known finding); the negation and operand-swap tables preserve the relation for all integers. The tables are compared with what the real generator emits on all 96 cells (operator x signedness x negation x swap x with/without CMP) each run. The generator as a whole (4 400 lines) is NOT modelled: seeded programs of the accepted subset are compiled at -O0/-O1 and co-executed against Src/CSem.v from boundary-biased states; a failing program is minimised and attributed to a known finding only by the features of its minimised form. Partial.',
+                text='Proved on the 6502 semantics (Sem.run) for ALL machine states: 39 lowering templates (assignments, 8/16-bit arithmetic, ++/--, shifts, zero/sign extension) and 20 16-bit comparison forms compute the C value / take the C branch (signed 16-bit forms: exactly when the subtraction does not overflow; refuted otherwise), each template compared with the sequence the real generator emits on every run; the flags CMP leaves; the unsigned branch sequences are exact; the signed ones are exact when the 8-bit subtraction does not overflow and refuted otherwise (known finding); the CMP-less comparison with 0 is exact for signed operands and for exactly the cells == != <= on unsigned ones (the other three cells are refuted: known finding); the negation and operand-swap tables preserve the relation for all integers. The tables are compared with what the real generator emits on all 96 cells (operator x signedness x negation x swap x with/without CMP) each run. The generator as a whole (4 400 lines) is NOT modelled: seeded programs of the accepted subset are compiled at -O0/-O1 and co-executed against Src/CSem.v from boundary-biased states; a failing program is minimised and attributed to a known finding only by the features of its minimised form. Partial.',
                 ref='DESIGN.md sections 6 C01 and 12'),
     'C15': dict(cat='proof', technique='Coq proofs that the rewrites are equivalences in the C semantics (commuted + & | ^ *, swapped comparisons, x + 1 as increment) and that the generator\'s swap / negation tables preserve the relation + exhaustive table correspondence + metamorphic co-execution of both spellings on the extracted 6502 semantics',
                 text='The source-level equivalences are proved for all values in Src/CSem.v; the tables through which the generator canonicalises comparisons are proved relation-preserving and compared with the real generator on every cell; that the compiler emits equivalent code for two spellings is co-executed, not proved: every applicable rewrite site of generated programs is rewritten (commute, swap, compound assignment folded/unfolded, ++ as += 1, if/else with negated condition, for as while) and both spellings must end in the same state from the same initial states. A spelling the compiler rejects is a rejection, not a violation. Partial.',
@@ -48,7 +48,7 @@ CLAIMED = {
                 text='Selection of branches for every well-nested tree and inertness of directives in unselected regions are stated on the model (general theorem in Proofs/CondFacts.v when present, pinned examples otherwise); the model is compared exactly with cpp::process each run; thousands of random trees are checked against the property\'s two-line reference. The #if evaluator (integers since fix 9bd62ad) is proved correct on printed numeric conditions (decimal round trip included).',
                 ref='DESIGN.md section 6 C07'),
     'C08': dict(cat='proof', technique='Coq theorems on the model of macro replacement (token exactness of the word-boundary replacement, positional arguments) + exact correspondence + reference token-level expander',
-                text='Token exactness is proved on the model (Proofs/MacroFacts.v when present); the model is compared exactly with cpp::process on macro-heavy inputs (up to 150 macros, nested calls and parentheses, -D, #undef); expansions are compared with a reference C-like expander. Known findings: parameter shadowing an earlier macro, -D chains.',
+                text='Token exactness is proved on the model (Proofs/MacroFacts.v when present); the model is compared exactly with cpp::process on macro-heavy inputs (up to 150 macros, nested calls and parentheses, -D, #undef); expansions are compared with a reference C-like expander. Chains of object-like macros are proved to expand to the full recursive substitution (rank below the 64-round cap). Known finding: a parameter shadowing an earlier macro.',
                 ref='DESIGN.md section 6 C08'),
     'C09': dict(cat='proof', technique='Coq theorems (escape table = C, single NUL, literal bodies opaque to the scanner) + exact correspondence of literal extraction and of stored bytes with the models + reference C decoding',
                 text='Escape decoding is proved equal to C on the finite escape table and the NUL/concatenation rule by definition; the scanner theorems are in Proofs/ScanFacts.v when present; literal extraction and the bytes the real compiler stores (initialisers, tables, arguments, asm, character constants; every printable character after a backslash) are compared with the extracted models and with C\'s decoding each run.',
